@@ -278,6 +278,8 @@ def cmd_check(prop, tier):
                                 'decisions_compared', 'fs_calls',
                                 'unconstrained_skipped')},
         'probes': probes,
+        'knobs_drawn': {k[5:]: v for k, v in counters.items()
+                        if k.startswith('knob:')},
         'probes_stuck_at_zero': stuck,
         'reach_ok': not stuck,
         'distinct_states': len(states),
